@@ -340,6 +340,7 @@ theorem gen_fresh (st : SStmt) : ∀ (lp : LoopCtx) (g : GState), Fresh g (gen l
   induction st with
   | flat s => intro lp g; exact genFlat_fresh g s
   | skip => intro lp g; exact fresh_nolabels g [] rfl
+  | forget => intro lp g; exact fresh_nolabels _ [] rfl
   | brk => intro lp g; cases lp <;> exact fresh_nolabels g _ rfl
   | cont => intro lp g; cases lp <;> exact fresh_nolabels g _ rfl
   | ifBrk c =>
